@@ -8,6 +8,8 @@ mod model;
 mod gen;
 mod enga;
 mod engc;
+#[cfg(feature = "shuttle")]
+mod engd;
 mod common;
 mod props;
 mod driver;
